@@ -8,6 +8,7 @@ E1 = "E1-history-explorer"
 E3 = "E3-kill-point-supervisor"
 E5 = "E5-input-enumerator"
 E2 = "E2-schedule-explorer"
+E4 = "E4-fault-answer-enumerator"
 
 # id -> (engine, category, technique, level text, level note, design ref, has_replay)
 checks = {
@@ -61,6 +62,16 @@ checks = {
          "every mutated image is decoded by litestream's WALReader and by an independent reference; composition law for chunked reads; reference cross-validated against SQLite recovery",
          "SQLite cross-validation is budgeted (sqlite_validation_exhaustive reported); offset reads trust the previous frame's stored checksum, as the code documents",
          "DESIGN.md §3 C09"),
+ "C05": (E4, "fault_enumeration",
+         "deviation-bounded enumeration of storage-fault answers at every numbered ReplicaClient call (0, 1 and 2 deviations), oracle after every call",
+         "every single deviation (quick, thorough) and every pair (thorough) over all client calls of fixed scenarios on the real code through a fault-injecting wrapper of the real file client",
+         "faults at the ReplicaClient interface; the resumable reader's back-off is shortened by a generated build overlay; fixed scenarios",
+         "DESIGN.md §3 C05"),
+ "C10": (E4, "fault_enumeration",
+         "exhaustive single-corruption enumeration (delete, every truncation length, every byte x 2 flip patterns) and read-fault enumeration (every byte offset x 1..4 repetitions) over the plan files of replicas built by real histories",
+         "every corruption/fault of every plan file is restored with the real code in a worker subprocess; outcome must be an error (or a process crash) or byte-identical success; no partial/overwritten output",
+         "single corruptions; process crash of the restoring process counts as a loud failure (recorded as its own outcome class); address-space limit on workers",
+         "DESIGN.md §3 C10"),
  "C14": (E1, "model_checking",
          "explicit-state search over operation histories with a differential oracle: the same application history replayed on a database litestream never touches",
          "bounded exhaustive exploration; logical dump of user-visible schema/rows and header pragmas equals the litestream-free control run; bookkeeping tables as specified; integrity and WAL mode kept",
@@ -119,7 +130,9 @@ m = {
    "kind_free_text": "ptrace supervisor that records a worker's file-system-mutating syscalls and kills it before the K-th; trace monitor for ordering rules"},
   {"name": E2, "path": "harness/sched, harness/fakes3, harness/cmd/lsmc/c20.go", "serves_properties": sorted(k for k, v in checks.items() if v[0] == E2),
    "kind_free_text": "cooperative scheduler: one client goroutine runs at a time and yields before each storage request; DFS over all choices with visited-state pruning"},
-  {"name": E5, "path": "harness/cmd/lsmc/c08.go", "serves_properties": sorted(k for k, v in checks.items() if v[0] == E5),
+  {"name": E4, "path": "harness/faultclient, harness/cmd/lsmc/c05.go, c10.go, c10w.go", "serves_properties": sorted(k for k, v in checks.items() if v[0] == E4),
+   "kind_free_text": "fault-injecting ReplicaClient wrapper numbering every call; deviation-bounded DFS over (call index, answer); corruption/read-fault enumerators run in crash-isolated worker subprocesses"},
+  {"name": E5, "path": "harness/cmd/lsmc/c08.go, c09.go, c19.go", "serves_properties": sorted(k for k, v in checks.items() if v[0] == E5),
    "kind_free_text": "exhaustive small-scope input enumerators with independent reference implementations"},
  ],
  "checks": [entry(p) for p in sorted(checks)],
